@@ -232,7 +232,7 @@ class Model:
         from yaw.catalog.readers import RandomReader
 
         reader = RandomReader(self.gen, size, chunksize)
-        total, lens = 0, []
+        total, lens, held = 0, [], []
         with reader:
             for i, chunk in enumerate(reader):
                 if stop_after is not None and i >= stop_after:
@@ -241,14 +241,26 @@ class Model:
                 _check_output(self.case, chunk, "pass")
                 lens.append(len(chunk))
                 total += len(chunk)
+                held.append(chunk)  # kept, not copied: a caller may hold on to what it was given
         if total != size or any(ln > chunksize for ln in lens) or any(ln != chunksize for ln in lens[:-1]):
             raise HistoryViolation(
                 dict(property=PROP, failing_rule="pass", outcome="wrong_size"),
                 f"pass over {size} records in chunks of {chunksize} yielded lengths {lens}",
             )
-        if stop_after is None:
+        if stop_after is None and held:
+            # a complete pass re-seeds: the chunks the caller collected are the stream of a
+            # fresh generator with the same seed
             exp = _fresh_records(self.case, size, chunksize)
-            # a complete pass of a reader re-seeds: it must equal a fresh generator's stream
+            got = np.concatenate(held)
+            same = got.dtype == exp.dtype and len(got) == len(exp) and all(
+                np.array_equal(got[nm], exp[nm]) for nm in exp.dtype.names
+            )
+            if not same:
+                raise HistoryViolation(
+                    dict(property=PROP, failing_rule="pass", outcome="not_reproducible"),
+                    f"the chunks of a complete pass ({size} records, chunk {chunksize}) after history {self.ops[:-1]} "
+                    "are not the stream of a fresh generator with the same seed",
+                )
 
     def op_from_random(self, size: int, chunksize: int | None, workers: int, mode: str, k: int, sched_seed: int) -> None:
         import yaw
